@@ -168,7 +168,7 @@ def sweep(ctx, N):
             continue
         with np.errstate(all='ignore'):
             big = g.f(z0 + Rmax * np.exp(2j * np.pi * np.arange(len(c)) / len(c)))
-        if not np.isfinite(big).all() and not np.isfinite(np.asarray(c[:n + 1])).all():
+        if not np.isfinite(big).all() and not (np.isfinite(np.asarray(c[:n + 1])).all() and np.isfinite(np.asarray(info.error_estimate[:n + 1])).all()):
             ctx.count(1, ('sweep', 'f-overflows-on-a-circle'))     # exp(sin(a z)) exceeds the double range on the largest circle: NaN coefficients with NaN estimates
             continue
         R = float(info.final_radius)
@@ -199,8 +199,9 @@ def sweep(ctx, N):
                 dv, dinfo = derivative(g.f, z0, n=n, full_output=True, **kw)
             ctx.count(1, ('sweep', 'derivative'))
             fact = np.array([float(math.factorial(k)) for k in range(len(c))])
-            okv = all(complex(a) == complex(b) or abs(complex(a) - complex(b)) <= 1e-12 * abs(complex(b)) for a, b in zip(dv[:n + 1], (c * fact)[:n + 1]))
-            oke = all(float(a) == float(b) or abs(float(a) - float(b)) <= 1e-12 * abs(float(b)) for a, b in zip(dinfo.error_estimate[:n + 1], (info.error_estimate * fact)[:n + 1]))
+            same = lambda a, b: a == b or (a != a and b != b) or abs(a - b) <= 1e-12 * abs(b)     # noqa  (NaN entries must be NaN in both)
+            okv = all(same(complex(a), complex(b)) for a, b in zip(dv[:n + 1], (c * fact)[:n + 1]))
+            oke = all(same(float(a), float(b)) for a, b in zip(dinfo.error_estimate[:n + 1], (info.error_estimate * fact)[:n + 1]))
             if not (okv and oke) or bool(dinfo.failed) != bool(info.failed) or bool(dinfo.degenerate) != bool(info.degenerate) or dinfo.iterations != info.iterations:
                 ctx.violation('derivative-scaling', 'derivative(f, z0, n=%d) is not taylor(f, z0, n) times k! (values %s, error estimates %s)' % (n, 'ok' if okv else 'differ', 'ok' if oke else 'differ'), desc)
     # failed <-> the iteration cap stopped the search: the number of circles a run WOULD use is measured with a large cap (min_iter pinned),
@@ -338,8 +339,11 @@ def traces(ctx, N):
             dX.append(dict(desc, coefficient=k))
             if 'best' in rec and len(extrap) > 2:
                 ex_col = [e[k] for e in extrap]
-                if not np.isfinite(np.array(ex_col)).all() or max(abs(t) for t in ex_col) > 1e250:
+                if not np.isfinite(np.array(ex_col)).all() or max(abs(t) for t in ex_col) > 1e120:
                     continue
+                nzs = [abs(t) for t in ex_col if t != 0]
+                if nzs and min(nzs) < 1e-120:
+                    continue      # magnitudes whose squares / reciprocals leave the double range: numpy's complex division and |z| are not modelled there
                 dea_err = None
                 with np.errstate(all='ignore'):   # the rounding floor of a row is the largest floor of the five circles it uses
                     fl = [float((2.220446049250313e-16 * np.max(np.abs(b * np.power(r, np.arange(mm)))) / np.power(r, np.arange(mm)))[k]) for b, r in zip(bs, rs)]
